@@ -64,6 +64,7 @@ def reset():
     PATH.start([])
     PATH.exploring = False
     PATH.whole = False
+    PATH.mute = False
     PATH.outer_script = []
     PATH.outer_taken = []
     EAGER_MASKS[0] = False
@@ -1272,6 +1273,7 @@ class Path:
         self.whole = False
         self.outer_script = []
         self.outer_taken = []
+        self.mute = False
 
     def start(self, script):
         self.script = list(script)
@@ -1279,6 +1281,8 @@ class Path:
         self.taken = []
 
     def decide(self, key, cond):
+        if self.mute:
+            return False                  # evaluation whose result is not used (an unrelated instance kept busy): any branch will do
         for k, v, b in self.outer_taken:
             if k == key:
                 return b
